@@ -265,9 +265,19 @@ def gen_history(rnd, n_conns=None, n_events=40, known_bias=0.8, chatter=0.1, dia
     n_msgs = 0
     for _ in range(n_events):
         if rnd.random() < chatter:
+            prev = [it for it in items if it[0] == 'msg']
+            if prev and rnd.random() < 0.2:
+                # a message line cut short (a write that stopped in mid-line, an unterminated string): not a message any more
+                full = render_line(prev[-1][2], d)
+                cut = full[:rnd.randrange(max(1, len(full) - 1))].rstrip()
+                if '(' in cut and not cut.endswith(')'):
+                    items.append(('text', cut))
+                    continue
             items.append(('text', rnd.choice(['', 'hello from the program', '  indented chatter  ', 'error: something [1.0] happened',
                                                'libEGL warning: foo', '[destroyed object]: wl_callback@3 done', '\t', 'xyz(1, 2)',
-                                               '[1234.567] discarded wl_pointer@3.motion(1)', '[ 12.5] wl_foo@3', 'wl_a@1.b()'])))
+                                               '[1234.567] discarded wl_pointer@3.motion(1)', '[ 12.5] wl_foo@3', 'wl_a@1.b()',
+                                               'page one\x0cpage two', 'unit\x1fseparated\x1efields', 'next\x85line', 'line\u2028separator', '\x0c',
+                                               'progress 10%\x1cprogress 50%'])))
             continue
         c = rnd.choice(conns)
         if n_msgs >= burst:
@@ -283,6 +293,30 @@ def gen_history(rnd, n_conns=None, n_events=40, known_bias=0.8, chatter=0.1, dia
                 sent = not c.server_side
                 c.live[i] = 'wl_registry'
                 m = dict(sent=sent, iface='wl_display', id=1, name='get_registry', args=[('new', i, 'wl_registry')])
+            elif r < 0.9 and r >= 0.85:
+                # the log starts in mid-session: the first line of this connection acknowledges an id created before the log began
+                m = dict(sent=c.server_side, iface='wl_display', id=1, name='delete_id', args=[('int', rnd.choice([57, 3, 4278190080]))])
+            elif r < 0.85:
+                # a round trip before asking for the registry: the registry then REUSES the callback's id
+                i = c.alloc_client()
+                c.live[i] = 'wl_callback'
+                m = dict(sent=not c.server_side, iface='wl_display', id=1, name='sync', args=[('new', i, 'wl_callback')])
+                c.script = [('done', i), ('delete', i), ('registry',)]
+        if m is None and getattr(c, 'script', None):
+            step = c.script.pop(0)
+            if step[0] == 'done' and step[1] in c.live:
+                m = dict(sent=c.server_side, iface='wl_callback', id=step[1], name='done', args=[('int', rnd.randrange(1000))])
+                c.zombie[step[1]] = c.live.pop(step[1])
+            elif step[0] == 'delete' and step[1] in c.zombie:
+                c.dead[step[1]] = c.zombie.pop(step[1])
+                m = dict(sent=c.server_side, iface='wl_display', id=1, name='delete_id', args=[('int', step[1])])
+            elif step[0] == 'registry':
+                i = c.alloc_client()
+                c.live[i] = 'wl_registry'
+                c.dead.pop(i, None)
+                m = dict(sent=not c.server_side, iface='wl_display', id=1, name='get_registry', args=[('new', i, 'wl_registry')])
+            else:
+                c.script = []
         if m is None:
             r = rnd.random()
             if r < 0.12 and c.zombie:
